@@ -13,13 +13,13 @@ type c04Cmd struct {
 }
 
 type c04Decl struct {
-	F   bool              `short:"f" long:"flag"`
-	S   string            `short:"s" long:"str"`
-	N   int               `short:"n" long:"num"`
-	C   string            `short:"c" long:"cho" choice:"a" choice:"b"`
-	O   string            `short:"o" long:"opt" optional:"true" optional-value:"dflt"`
-	M   map[string]int    `short:"m" long:"map"`
-	E   string            `short:"é" long:"eac"`
+	F   bool               `short:"f" long:"flag"`
+	S   string             `short:"s" long:"str"`
+	N   int                `short:"n" long:"num"`
+	C   string             `short:"c" long:"cho" choice:"a" choice:"b"`
+	O   string             `short:"o" long:"opt" optional:"true" optional-value:"dflt"`
+	M   map[string]int     `short:"m" long:"map"`
+	E   string             `short:"é" long:"eac"`
 	Cb  func(string) error `long:"cb"`
 	Pos struct {
 		P string
@@ -28,14 +28,20 @@ type c04Decl struct {
 }
 
 type c04DeclReq struct {
-	F bool   `short:"f" long:"flag"`
-	R string `short:"r" long:"req" required:"true"`
-	Q int    `short:"q" required:"true"`
+	F   bool   `short:"f" long:"flag"`
+	R   string `short:"r" long:"req" required:"true"`
+	Q   int    `short:"q" required:"true"`
 	Cmd c04Cmd `command:"cmd"`
 }
 
+type c04DeclHiddenCmds struct {
+	F  bool   `short:"f" long:"flag"`
+	H1 c04Cmd `command:"int" hidden:"true"`
+	H2 c04Cmd `command:"dbg" hidden:"true"`
+}
+
 type c04DeclBoolChoice struct {
-	B bool `short:"b" long:"bc" choice:"x" choice:"y"`
+	B bool   `short:"b" long:"bc" choice:"x" choice:"y"`
 	S string `short:"s"`
 }
 
@@ -56,6 +62,8 @@ func c04Parser(v *V, variant int, opts Options, cbCalled *bool) *Parser {
 		p.AddGroup("Application Options", "", &c04DeclReq{})
 	case 2:
 		p.AddGroup("Application Options", "", &c04DeclBoolChoice{})
+	case 3:
+		p.AddGroup("Application Options", "", &c04DeclHiddenCmds{})
 	}
 	return p
 }
@@ -144,12 +152,20 @@ func H_C04_typed(v *V) {
 		fault, want = nil, ErrRequired
 	case 9:
 		subOptional = false
+		if v.Choice(2) == 1 {
+			variant = 3 // every subcommand hidden
+		}
 		fault, want = nil, ErrCommandRequired
 	case 10:
 		subOptional = false
-		v.Assume(!refOptionSyntax(V) && V != "cmd" && !(opts&PassDoubleDash != 0 && V == "--"))
-		// the declaration has one positional argument: a first plain word fills it
-		fault, want = []string{"w", V}, ErrUnknownCommand
+		v.Assume(!refOptionSyntax(V) && V != "cmd" && V != "int" && V != "dbg" && !(opts&PassDoubleDash != 0 && V == "--"))
+		if v.Choice(2) == 1 {
+			variant = 3
+			fault, want = []string{V}, ErrUnknownCommand
+		} else {
+			// the declaration has one positional argument: a first plain word fills it
+			fault, want = []string{"w", V}, ErrUnknownCommand
+		}
 	case 11:
 		if v.Choice(2) == 0 {
 			fault = []string{"-h"}
